@@ -272,33 +272,40 @@ def run(ctx):
 
     # ---- R15.5 consumer applies each buffer once -----------------------------------------------------
     spawn = F.spawn_closures()
+    from ackmodel import thread_roots
+    # consumer loops: the function (thread closure, or a function only that thread runs) that receives BufferEvents
     cons = []
-    for cdef in spawn:
-        c = F.fn(cdef)
+    for n_, c in F.fns.items():
         if any("BufferEvent" in " ".join(t.get("gargs", [])) and t["callee"].endswith("Receiver::<T>::recv") for b, t in c.calls()):
-            cons.append(c)
+            roots_ = thread_roots(F, n_, spawn)
+            if roots_ and all(r_ in spawn for r_ in roots_):
+                cons.append(c)
     ctx.floor("R15.5", "access-count consumer threads", len(cons), 1)
     for c in cons:
         ctx.touch(c)
         R = [b for b, t in c.calls() if t["callee"].endswith("Receiver::<T>::recv")][0]
-        rres = c.origin_call(R, c.term(R))
-        ev = ("field", ("variant", rres, "Ok"), "0")
-        paths = enum_paths(c, start=R, ends=set(c.return_blocks()) | {R})
+        own_ = (outer_fn_(F, c).rec.get("self_ty") or "").split("<")[0]
+        # one iteration of the loop; helpers of the same type (a per-event function) inlined, everything else opaque
+        paths = ipaths(F, c, stop=lambda n2: not (n2 in F.fns and (F.fns[n2].kind == "Closure" or (F.fns[n2].rec.get("self_ty") or "").split("<")[0] == own_)),
+                       depth=2, start=R, ends=set(c.return_blocks()) | {R})
         ctx.analysed["paths"] += len(paths)
         bad = []
         nfull = 0
         for p in paths:
-            atoms = path_atoms(c, p)
-            full = [a for a in atoms if a[0] == "enum" and strip_site(a[1]) == strip_site(ev)]
-            incs = [(b, t) for b, t in path_calls(c, p) if "AF" in (site_effects(F, c, b)["acquire"] | set(c.held_before_term(b))) and t["res"] == "item" and t.get("rlocal")]
-            if full and full[0][2] == ("Full",):
+            re_ = [e for e in p.events if e.fn is c and e.bb == R]
+            if not re_:
+                continue
+            ev = ("field", ("variant", re_[0].res, "Ok"), "0")
+            fullv = p.variant_of(ev)
+            incs = [e for e in p.events if not e.log and e.t["res"] == "item" and e.t.get("rlocal")
+                    and "AF" in (site_effects(F, e.fn, e.bb)["acquire"] | set(e.fn.held_before_term(e.bb)))]
+            if fullv == ("Full",):
                 nfull += 1
                 payload = ("field", ("variant", ev, "Full"), "0")
-                whole = [(b, t) for b, t in incs if any(same_value(c.op_origin(a), payload) for a in t["args"])]
-                pieces = [(b, t) for b, t in incs if (b, t) not in whole and any(
-                    mentions(c.op_origin(a), lambda s: s[0] == "call" and any(k in s[1] for k in ("chunks", "::iter", "split", "::next", "into_iter")) and mentions(s, lambda y: strip_site(y) == strip_site(payload))) for a in t["args"])]
-                piecewise = any(mentions(c.origin_call(b, t), lambda s: strip_site(s) == strip_site(payload)) and any(k in t["callee"] for k in ("chunks", "::iter", "split", "into_iter"))
-                                for b, t in path_calls(c, p))
+                whole = [e for e in incs if any(same_value(a, payload) for a in e.args)]
+                pieces = [e for e in incs if e not in whole and any(
+                    mentions(a, lambda s_: s_[0] == "call" and any(k in s_[1] for k in ("chunks", "::iter", "split", "::next", "into_iter")) and mentions(s_, lambda y: strip_site(y) == strip_site(payload))) for a in e.args)]
+                piecewise = any(mentions(e.res, lambda s_: strip_site(s_) == strip_site(payload)) and any(k in e.generic for k in ("chunks", "::iter", "split", "into_iter")) for e in p.events)
                 if len(incs) < 1 and not piecewise:
                     bad.append(("received buffer not applied", p))
                     continue
@@ -309,14 +316,14 @@ def run(ctx):
                     continue
                 if not whole and len(pieces) != len(incs):
                     bad.append(("the applied hashes are not the received buffer", p))
-                for b, t in incs:
-                    if "AF" not in c.held_before_term(b) and "AF" not in site_effects(F, c, b)["acquire"]:
+                for e in incs:
+                    if "AF" not in e.fn.held_before_term(e.bb) and "AF" not in site_effects(F, e.fn, e.bb)["acquire"]:
                         bad.append(("buffer applied without the sketch lock", p))
-            elif incs:
+            elif incs and p.variant_of(re_[0].res) == ("Ok",):
                 bad.append(("sketch touched without a Full event", p))
         ctx.check(not bad and nfull >= 1, "R15.5", "%s|apply-once" % c.name,
                   "each received Full(buffer) is applied to the sketch exactly once under its write lock (%d loop paths)" % len(paths), c.where(R),
-                  "; ".join("%s via %s" % x for x in bad[:3]))
+                  "; ".join("%s %s" % (w_, q.show()) for w_, q in bad[:3]))
 
     # ---- R15.6 reads never wait ------------------------------------------------------------------------
     for f in reads:
@@ -327,6 +334,27 @@ def run(ctx):
                       "%s|read-never-waits" % f.name,
                       "a read API reaches no blocking channel/thread operation and never takes the sketch lock", f.where(),
                       "block=%s acquire=%s nonblock=%s" % (sorted(e["block"]), sorted(e["acquire"]), sorted(e["nonblock"])))
+
+
+def outer_fn_(F, g):
+    for _ in range(6):
+        if g.kind != "Closure":
+            return g
+        p = F.fn(g.rec.get("parent"))
+        if p is None:
+            return g
+        g = p
+    return g
+
+
+def site_acquire(F, name):
+    """lock classes a function acquires itself (its own body, not its callees)"""
+    out = set()
+    for nid in F.insts_of(name):
+        for bb2, kind, what, c2 in F.direct_effects(nid):
+            if kind == "acquire":
+                out.add(what)
+    return out
 
 
 def records_directly(F, f, bb, read_names):
